@@ -587,7 +587,7 @@ func init() {
 			js = append(js, J("codec", "VX_C11_PlainGarbage", 5, 0), J("codec", "VX_C11_PlainGarbage", 4, 1),
 				J("codec", "VX_C11_PlainReuse", 3, 1), J("codec", "VX_C11_PlainReuse", 2, 0), J("codec", "VX_C11_PlainReuse", 1, 2),
 				J("codec", "VX_C11_FormRoundTrip", 0, 1, 0), J("codec", "VX_C11_FormRoundTrip", 1, 1, 2), J("codec", "VX_C11_FormRoundTrip", 1, 0, 3), J("codec", "VX_C11_FormRoundTrip", 2, 1, 0), J("codec", "VX_C11_FormRoundTrip", 3, 1, 1),
-				J("codec", "VX_C11_FormGarbage", 1, 1), J("codec", "VX_C11_FormGarbage", 1, 2), J("codec", "VX_C11_FormGarbage", 1, 3), J("codec", "VX_C11_FormGarbage", 0, 2), J("codec", "VX_C11_FormGarbage", 0, 3),
+				J("codec", "VX_C11_FormIndependent", 1), J("codec", "VX_C11_FormIndependent", 3), J("codec", "VX_C11_FormGarbage", 1, 1), J("codec", "VX_C11_FormGarbage", 1, 2), J("codec", "VX_C11_FormGarbage", 1, 3), J("codec", "VX_C11_FormGarbage", 0, 2), J("codec", "VX_C11_FormGarbage", 0, 3),
 				J("codec", "VX_C11_ThriftRoundTrip", 2), J("codec", "VX_C11_ThriftGarbage", 4), J("codec", "VX_C11_ThriftGarbage", 6),
 				J("codec", "VX_C11_PlainWindow", 4, 6, 0), J("codec", "VX_C11_PlainWindow", 4, 3, 0), J("codec", "VX_C11_PlainWindow", 0, 2, 0), J("codec", "VX_C11_PlainWindow", 4, 6, 1),
 				J("codec", "VX_C11_EncodingsIndependent", 0, 1), J("codec", "VX_C11_EncodingsIndependent", 1, 1), J("codec", "VX_C11_EncodingsIndependent", 2, 1),
